@@ -3,9 +3,10 @@
 (* C17: inconsistent models are refused at render time.                    *)
 (*                                                                         *)
 (* A small universe of real objects -- database D with table T (columns a, *)
-(* b; index I over a), table U (columns x, y), table V = "s2"."t" (same     *)
+(* b, c; index I over c), table U (columns x, y), table V = "s2"."t" (same     *)
 (* bare name as T), enum E (item i) and the                                *)
-(* composite reference R = T.(a, b) > U.(x, y) -- is driven through        *)
+(* composite reference R = T.(a, b) > U.(x, y) and the single-column       *)
+(* reference R2 = T.a > U.x -- is driven through                           *)
 (* histories of edits that make the model inconsistent in exactly ONE way  *)
 (* (an attribute set to None, an element detached by a delete_* call, a    *)
 (* column moved to another table, the inline flag set on the composite     *)
@@ -28,9 +29,9 @@ Clean == [set |-> [x \in Attrs |-> TRUE], itab |-> TRUE, atab |-> "T", btab |-> 
 Enabled(st, e) ==
   CASE e.op = "unset" -> st.set[e.a]
     [] e.op = "reset" -> ~st.set[e.a]
-    [] e.op = "delete_index" -> st.itab /\ st.atab = "T"
-    [] e.op = "add_index" -> ~st.itab /\ st.atab = "T"
-    [] e.op = "delete_col_a" -> st.atab = "T" /\ st.itab = FALSE      \* keep the index's subject in place while it is attached
+    [] e.op = "delete_index" -> st.itab
+    [] e.op = "add_index" -> ~st.itab
+    [] e.op = "delete_col_a" -> st.atab = "T"
     [] e.op = "delete_col_b" -> st.btab = "T"
     [] e.op = "add_a_to_T" -> st.atab = "none"
     [] e.op = "add_b_to_T" -> st.btab = "none"
@@ -67,7 +68,9 @@ Defects(st) ==
   \cup (IF st.rinline THEN {"composite inline"} ELSE {})
   \cup (IF st.tdb THEN {} ELSE {"table detached"})
 
-Queries == {"T.sql", "a.sql", "E.sql", "i.sql", "I.sql", "R.sql", "R.dbml", "R.table1", "T.get_refs", "a.get_refs", "b.get_refs", "db.sql", "db.dbml"}
+\* (R2 = T.a > U.x is a second, single-column reference; whether it is inline is a flavour)
+Queries == {"T.sql", "a.sql", "E.sql", "i.sql", "I.sql", "R.sql", "R.dbml", "R.table1", "T.get_refs", "a.get_refs", "b.get_refs", "db.sql", "db.dbml",
+            "R2.sql", "R2.dbml"}
 
 AME == "AttributeMissingError"
 \* the outcome class the library must produce for query q in state st, or "unspecified" where the
@@ -82,7 +85,7 @@ Out(st, q) ==
     [] x \in {"ename", "eschema"} -> IF q \in {"E.sql", "db.sql"} THEN AME ELSE "unspecified"
     [] x = "iname"                -> IF q \in {"i.sql", "E.sql", "db.sql"} THEN AME ELSE "unspecified"
     [] x = "index detached"       -> IF q = "I.sql" THEN AME ELSE "unspecified"
-    [] x = "a detached"           -> IF q \in {"R.sql", "R.dbml"} THEN "TableNotFoundError"
+    [] x = "a detached"           -> IF q \in {"R.sql", "R.dbml", "R2.sql", "R2.dbml"} THEN "TableNotFoundError"
                                      ELSE IF q = "a.get_refs" THEN "TableNotFoundError" ELSE "unspecified"
     [] x = "b detached"           -> IF q \in {"R.sql", "R.dbml"} THEN "TableNotFoundError"
                                      ELSE IF q = "b.get_refs" THEN "TableNotFoundError" ELSE "unspecified"
@@ -93,8 +96,11 @@ Out(st, q) ==
 \* Flavours: optional settings of the elements that have NO bearing on consistency.  Out takes no flavour: whatever the
 \* index is (primary key, unique), whether column a is a primary key, whichever way the reference points, the same
 \* defect must be refused with the same error.  Every history is executed in several flavours of the universe.
-Flavours == [ipk : BOOLEAN, iunique : BOOLEAN, apk : BOOLEAN, rtype : {">", "<", "-"}]
-Plain == [ipk |-> FALSE, iunique |-> FALSE, apk |-> FALSE, rtype |-> ">"]
+Flavours == [ipk : BOOLEAN, iunique : BOOLEAN, apk : BOOLEAN, rtype : {">", "<", "-"}, r2inline : BOOLEAN]
+Plain == [ipk |-> FALSE, iunique |-> FALSE, apk |-> FALSE, rtype |-> ">", r2inline |-> FALSE]
+
+\* every way of being inconsistent in exactly one way (vacuity guard: the harness requires that each was reached and judged)
+AllDefects == Attrs \cup {"index detached", "a detached", "b detached", "mixed side", "composite inline", "table detached"}
 
 VARIABLES st, hist
 Init == st = Clean /\ hist = <<>>
